@@ -131,11 +131,80 @@ fn probes() -> Vec<String> {
     v
 }
 
+/// Long chains of one construct inside a semantically checked position (the type checker walks
+/// places, aliases, wrappers and conversions recursively): a walk that visits a sub-chain twice per
+/// level is exponential and looks like a hang from depth ~25 on (seeded change C06_2: the
+/// mutability walk called its helper twice on the immutable-pointer path). Depths 24, 64 and 200
+/// (the bound of the property) for valid and invalid variants.
+fn deep_chains() -> Vec<String> {
+    let mut v = vec![];
+    for n in [24usize, 64, 200] {
+        for imm in [false, true] {
+            let ptr = if imm { "^x" } else { "^mut x" };
+            // a chain of local aliases of a pointer, written through at the end
+            let mut s = format!("core :: #mod(\"core\");\nmain :: () {{\n    x := 1;\n    p0 := {ptr};\n");
+            for i in 1..=n {
+                s.push_str(&format!("    p{i} := p{};\n", i - 1));
+            }
+            s.push_str(&format!("    p{n}^ = 5;\n    core.println(x);\n}}\n"));
+            v.push(s);
+            // the same place behind n parentheses
+            v.push(format!(
+                "core :: #mod(\"core\");\nmain :: () {{\n    x := 1;\n    p := {ptr};\n    {}p{}^ = 5;\n    core.println(x);\n}}\n",
+                "(".repeat(n),
+                ")".repeat(n)
+            ));
+            // a chain of struct fields
+            let mut t = String::from("core :: #mod(\"core\");\n");
+            for i in 0..n {
+                t.push_str(&format!("S{i} :: struct {{ f: {} }};\n", if i + 1 == n { "i32".to_string() } else { format!("S{}", i + 1) }));
+            }
+            let mut lit = String::from("7");
+            for i in (0..n).rev() {
+                lit = format!("S{i}.{{ f = {lit} }}");
+            }
+            t.push_str(&format!(
+                "main :: () {{\n    s {} {lit};\n    s{} = 9;\n    core.println(s{});\n}}\n",
+                if imm { "::" } else { ":=" },
+                ".f".repeat(n),
+                ".f".repeat(n)
+            ));
+            if n <= 64 {
+                v.push(t);
+            }
+        }
+        // chains of casts, of unary operators, of blocks, of `if` values and of nested calls
+        v.push(format!("core :: #mod(\"core\");\nmain :: () {{\n    x : i64 = {}1{};\n    core.println(x);\n}}\n", "i64.(".repeat(n), ")".repeat(n)));
+        v.push(format!("core :: #mod(\"core\");\nmain :: () {{\n    x : i64 = {}1;\n    core.println(x);\n}}\n", "-".repeat(n)));
+        v.push(format!("core :: #mod(\"core\");\nmain :: () {{\n    x : i64 = {}1{};\n    core.println(x);\n}}\n", "{ ".repeat(n), " }".repeat(n)));
+        v.push(format!(
+            "core :: #mod(\"core\");\nid :: (v: i64) -> i64 {{ v }}\nmain :: () {{\n    x : i64 = {}1{};\n    core.println(x);\n}}\n",
+            "id(".repeat(n),
+            ")".repeat(n)
+        ));
+        if n <= 64 {
+            v.push(format!(
+                "core :: #mod(\"core\");\nmain :: () {{\n    t := true;\n    x : i64 = {}1{};\n    core.println(x);\n}}\n",
+                "if t { ".repeat(n),
+                " } else { 0 }".repeat(n)
+            ));
+        }
+        // a chain of global aliases and of type aliases
+        let mut g = String::from("core :: #mod(\"core\");\nG0 : i64 : 3;\nT0 :: i64;\n");
+        for i in 1..=n {
+            g.push_str(&format!("G{i} :: G{};\nT{i} :: T{};\n", i - 1, i - 1));
+        }
+        g.push_str(&format!("main :: () {{\n    x : T{n} = G{n};\n    core.println(x);\n}}\n"));
+        v.push(g);
+    }
+    v
+}
+
 pub fn run(tier: &str, seed: u64, widen: bool) -> Report {
     let mut rep = Report::new(
         "C06",
         "real capy CLI in child processes with a deadline; outcome classes {diagnostics, built} vs anything else",
-        "the probe corpus of past crashes first; token soups, nesting and corpus mutations (the generator of C23, source-file mode); seeded random UTF-8; generated well-typed CapyCore programs and 1-3 token/byte mutations of them (compiled together with the core module). Non-trivial = the front end got past parsing (no syntax error) or the input is a mutated well-typed program; distinct by source text",
+        "the probe corpus of past crashes first; chains of depth 24 / 64 / 200 of one construct in a checked position (local pointer aliases written through, parenthesised places, struct field paths, casts, unary operators, blocks, calls, `if` values, global and type aliases; mutable and immutable variants); token soups, nesting and corpus mutations (the generator of C23, source-file mode); seeded random UTF-8; generated well-typed CapyCore programs and 1-3 token/byte mutations of them (compiled together with the core module). Non-trivial = the front end got past parsing (no syntax error) or the input is a mutated well-typed program; distinct by source text",
     );
     if !crate::e2e::available() {
         rep.notes.push("capy CLI binary missing".into());
@@ -143,6 +212,9 @@ pub fn run(tier: &str, seed: u64, widen: bool) -> Report {
     }
     let mut rng = Rng::new(seed);
     let mut inputs: Vec<(String, &'static str)> = probes().into_iter().map(|t| (t, "probe")).collect();
+    for t in deep_chains() {
+        inputs.push((t, "deep-chain"));
+    }
     // parser-level inputs (a slice of C23's generator)
     let (p_inputs, _) = c23::gen_inputs("quick", seed, false);
     let n_soup = if widen { 6000 } else if tier == "thorough" { 2500 } else { 400 };
